@@ -196,6 +196,24 @@ func verifyFunc(w *world, fn *ssa.Function, lite bool, depth int, exclude []stri
 			kept = append(kept, o)
 		}
 		g.obls = kept
+		// vacuity guard: a claim pattern that selects no obligation (a renamed return site, a removed clause) decides
+		// nothing and must not pass silently
+		for _, p := range only {
+			if strings.HasPrefix(p, "contract:") || !strings.Contains(p, "@") {
+				continue // kind-level patterns (`pre:DB.*`, `post:*label*`) may legitimately select nothing in a unit; patterns
+				// that name a site of the code (`...@return(...)`) must select something
+			}
+			hit := false
+			for _, o := range kept {
+				if globMatch(p, o.name) {
+					hit = true
+					break
+				}
+			}
+			if !hit {
+				g.obls = append(g.obls, obligation{name: "contract:" + fnKeyQ(fn) + ":claim-pattern-selects-nothing:" + p, kind: "contract", guard: "true", cond: "false", fn: fnKeyQ(fn), nAsserts: 0})
+			}
+		}
 	}
 	genMu.Unlock()
 	locked = false
